@@ -1045,10 +1045,19 @@ impl<'a> CompactionIterator<'a> {
 		self.accumulated_versions.dedup_by_key(|b| b.0.seq_num());
 
 		// Check if latest version is DELETE at bottom level
-		// If so, we can completely remove this key from the database
+		// If so, we can completely remove this key from the database -- unless a
+		// snapshot that began before the delete is still open: it may read one of
+		// the older versions, and then that version AND the tombstone above it have
+		// to stay (without its tombstone the version would come back for everybody).
+		let latest_delete_seen_by_all_snapshots = !self.accumulated_versions.is_empty()
+			&& self
+				.snapshots
+				.first()
+				.map_or(true, |&oldest| oldest >= self.accumulated_versions[0].0.seq_num());
 		let latest_is_delete_at_bottom = self.is_bottom_level
 			&& !self.accumulated_versions.is_empty()
-			&& self.accumulated_versions[0].0.is_hard_delete_marker();
+			&& self.accumulated_versions[0].0.is_hard_delete_marker()
+			&& latest_delete_seen_by_all_snapshots;
 
 		// Position of the newest REPLACE, if any (versions are sorted newest first).
 		// REPLACE semantics: delete all OLDER versions regardless of retention; a
@@ -1127,11 +1136,10 @@ impl<'a> CompactionIterator<'a> {
 			} else if is_latest && !is_hard_delete && !is_replace {
 				// Latest PUT: never stale (will be output)
 				false
-			} else if is_latest && is_hard_delete && self.is_bottom_level {
-				// Latest DELETE at bottom: stale (won't be output)
-				true
-			} else if is_latest && is_hard_delete && !self.is_bottom_level {
-				// Latest DELETE at non-bottom: not stale (tombstone preserved)
+			} else if is_latest && is_hard_delete {
+				// Latest DELETE that is not dropped with its whole key above: the
+				// tombstone is preserved (non-bottom level, or a snapshot older than
+				// the delete is still open)
 				false
 			} else if is_latest && is_replace {
 				// Latest REPLACE: not stale (will be output)
